@@ -87,6 +87,16 @@ pub(crate) unsafe fn stub_cstr_from_ptr<'a>(ptr: *const core::ffi::c_char) -> &'
     unsafe { core::ffi::CStr::from_bytes_with_nul_unchecked(core::slice::from_raw_parts(ptr as *const u8, n + 1)) }
 }
 
+/// `<[T]>::fill` as a plain element loop (bounded per harness through --unwindset).  With CBMC's field-sensitive arrays a
+/// `write_bytes` of symbolic length is re-assigned field by field over the whole enclosing struct (symex does not finish),
+/// while stores at concrete indices under a symbolic guard are cheap.
+pub(crate) fn stub_fill_loop<T: Clone>(s: &mut [T], v: T) {
+    let mut i = 0;
+    while i < s.len() {
+        s[i] = v.clone();
+        i += 1;
+    }
+}
 /// `<[u16]>::fill` as used by the code-length decoder: zero runs (codes 17/18, up to 138 elements) become one
 /// `write_bytes` (no loop to unwind); a repeat of the previous non-zero length (code 16) is at most 6 elements.
 pub(crate) fn stub_fill_u16_runs<T: Clone>(s: &mut [T], v: T) {
